@@ -57,7 +57,6 @@ type shared struct {
 	r         *ev.Run
 	mu        sync.Mutex
 	reported  map[string]int
-	sampled   map[string]int
 	codes     map[string]map[string]int // rule -> observed status -> count
 	disabled  map[string]bool           // request classes that crashed a server (not sent again)
 	picked    map[string][]any          // curated samples by class
@@ -206,7 +205,9 @@ func main() {
 		"an over-long range_end, enum values outside the schema, negative revision bounds and unusual table names have no documented rule: only liveness and 'refused ⇒ no effect' are judged for them",
 		"raw mutants have no expected status: only 'server stays alive' and 'refused ⇒ dump unchanged' are judged; their agreement with the validator is reported as a counter",
 		"DEADLINE_EXCEEDED / UNAVAILABLE / CANCELLED are transport-level outcomes: the case is inconclusive (model re-synchronised from a dump) unless the server keeps answering UNAVAILABLE while healthy",
-		"Tables.Delete of an unknown table is only required to be refused (the statement names NotFound for key-value requests)")
+		"Tables.Delete of an unknown table is only required to be refused (the statement names NotFound for key-value requests)",
+		"race reports whose stacks contain regatta's util/iter.Pull are not judged: that copy of the standard library's iter.Pull switches coroutines through runtime.coroswitch without the race annotations of the original, the two sides never run concurrently; any other race report with a regatta frame is a violation",
+		"a server terminated by pebble's 'levelIter … bound violation' assertion is a race-build artefact (pebble compiles the assertion in only under the race/invariants tags; checked: the same stream against a binary built without -race never terminates): reported as NOTE, the cluster is restarted and reads with range_end <= key are no longer generated in that run")
 
 	bin := os.Getenv("VERIF_REGATTA_BIN")
 	if bin == "" {
@@ -222,7 +223,15 @@ func main() {
 	}()
 	defer cleanup()
 
-	sh := &shared{r: r, reported: map[string]int{}, sampled: map[string]int{}, codes: map[string]map[string]int{}, disabled: map[string]bool{}, picked: map[string][]any{}, noted: map[string]bool{}}
+	// whole-run watchdog: a wedged server must not wedge the check
+	go func() {
+		time.Sleep(time.Duration(r.Pick(10, 45)) * time.Minute)
+		fmt.Printf("INCONCLUSIVE property=C16 whole-run watchdog fired\n")
+		cleanup()
+		os.Exit(2)
+	}()
+
+	sh := &shared{r: r, reported: map[string]int{}, codes: map[string]map[string]int{}, disabled: map[string]bool{}, picked: map[string][]any{}, noted: map[string]bool{}}
 	base := scratchDir()
 
 	if r.Replay != "" {
@@ -269,12 +278,12 @@ func main() {
 	r.Extra("violation_occurrences", sh.reported)
 	r.Extra("observed_status_by_rule", sh.codes)
 	sh.mu.Unlock()
-	r.FloorNontrivial(int64(r.Pick(150, 4000)))
-	r.FloorCount("requests_rejected", int64(r.Pick(400, 15000)))
-	r.FloorCount("requests_accepted", int64(r.Pick(250, 10000)))
-	r.FloorCount("dumps_compared", int64(r.Pick(800, 30000)))
-	r.FloorCount("raw_mutants_decoded", int64(r.Pick(60, 2000)))
-	r.FloorCount("follower_requests", int64(r.Pick(40, 1500)))
+	r.FloorNontrivial(int64(r.Pick(300, 6000)))
+	r.FloorCount("requests_rejected", int64(r.Pick(700, 15000)))
+	r.FloorCount("requests_accepted", int64(r.Pick(500, 10000)))
+	r.FloorCount("dumps_compared", int64(r.Pick(1300, 30000)))
+	r.FloorCount("raw_mutants_decoded", int64(r.Pick(200, 4000)))
+	r.FloorCount("follower_requests", int64(r.Pick(80, 1500)))
 	r.FloorCount("clean_exits_on_sigterm", int64(r.Pick(3, 9)))
 	r.FloorDistinct("rules_exercised", 40)
 	cleanup()
@@ -601,7 +610,6 @@ func (l *lane) catalogue() []*request {
 			&request{Method: mDelete, Kind: "valid", Msg: &pb.DeleteRangeRequest{Table: []byte("t2"), Key: longest, Count: true}},
 		)
 		// tables API on the leader
-		tr := rand.New(rand.NewSource(99))
 		out = append(out,
 			&request{Method: mCreate, Kind: "tables-create-missing-name", Msg: &pb.CreateTableRequest{}},
 			&request{Method: mDropTable, Kind: "tables-delete-missing-name", Msg: &pb.DeleteTableRequest{}},
@@ -613,7 +621,6 @@ func (l *lane) catalogue() []*request {
 			&request{Method: mPut, Kind: "put-unknown-table", Msg: &pb.PutRequest{Table: []byte("dyn0"), Key: []byte("a"), Value: []byte("v1")}},
 			&request{Method: mList, Kind: "valid", Msg: &pb.ListTablesRequest{}},
 		)
-		_ = tr
 		// the follower: table mutations, forwarded writes, locally validated reads
 		if e.hasFoll {
 			out = append(out,
@@ -757,7 +764,8 @@ func (l *lane) exec(q *request) {
 	}
 	if transient(out.Code) {
 		resend := exp.Class == "code" || exp.Class == expNonOK || !isWrite(q) && !strings.HasPrefix(q.Method, "Tables.")
-		for i := 0; resend && i < 3 && transient(out.Code); i++ {
+		// (no second try after a deadline: a request the server cannot answer costs 20 s each time)
+		for i := 0; resend && i < 3 && transient(out.Code) && out.Code != codes.DeadlineExceeded; i++ {
 			time.Sleep(300 * time.Millisecond)
 			out = l.cli.send(q)
 			if !l.alive() {
@@ -840,19 +848,15 @@ func (l *lane) exec(q *request) {
 
 	// ---- the status class -------------------------------------------------------------------
 	observed := fmt.Sprintf("%s %q", out.Code, trunc(out.Msg, 160))
-	statusViolated := false
 	switch exp.Class {
 	case "code":
 		if out.Code == codes.OK {
-			statusViolated = true
 			l.sh.violation(ruleForStats+"-accepted", fmt.Sprintf("%s %s violating '%s' answered OK, %s promised: %s", l.target(q), q.Method, exp.Rule, exp.Code, trunc(render(q.Msg), 300)), l.witness(q, exp, observed, ""))
 		} else if out.Code != exp.Code {
-			statusViolated = true
 			l.sh.violation(fmt.Sprintf("%s-status-%s", ruleForStats, out.Code), fmt.Sprintf("%s %s violating '%s' answered %s, %s promised: %s", l.target(q), q.Method, exp.Rule, out.Code, exp.Code, trunc(render(q.Msg), 300)), l.witness(q, exp, observed, ""))
 		}
 	case expNonOK:
 		if out.Code == codes.OK {
-			statusViolated = true
 			l.sh.violation(ruleForStats+"-accepted", fmt.Sprintf("%s %s violating '%s' answered OK, a refusal is promised: %s", l.target(q), q.Method, strings.Join(exp.All, "+"), trunc(render(q.Msg), 300)), l.witness(q, exp, observed, ""))
 		}
 	case expOK:
@@ -861,15 +865,10 @@ func (l *lane) exec(q *request) {
 			l.sh.sample("valid-refused", map[string]any{"valid_request_refused": render(q.Msg), "method": q.Method, "status": observed})
 		}
 	}
-	_ = statusViolated
 
 	// ---- the effect ---------------------------------------------------------------------------
 	if out.Code != codes.OK {
 		l.r.Count("requests_rejected", 1)
-		if l.pending > 0 {
-			// cannot happen: every accepted request is followed by a compared dump
-			l.pending = 0
-		}
 		d, err := l.dump()
 		if err != nil {
 			l.dumpFailed(q, exp, err)
